@@ -557,6 +557,9 @@ func execC08(ops []Op) []string {
 				l, _ := c08LexLines(b, "0")
 				out = append(out, l...)
 			}
+		case "render": // family `render` (c08_render.go)
+			flush()
+			out = append(out, execC08Render(a)...)
 		default:
 			panic("bad op " + a[0])
 		}
@@ -867,6 +870,8 @@ func runC08(run *Run) {
 			add([]Op{{Args: []string{"lexfile", f}}}, "lexfile")
 		}
 	}
+	cases = append(cases, c08RenderCases(run, root, 9000000)...) // family `render` (c08_render.go)
+	run.Rule += c08RenderRule
 	if only := os.Getenv("C08_ONLY"); only != "" { // development aid: restrict to some streams
 		var keep []Case
 		for _, c := range cases {
